@@ -440,6 +440,17 @@ def fixed():
     z.enum([("unit", []), ("unit", []), ("unit", []), ("tuple", [U8])], default=2, comment="sized enum, default is the third unit variant")
     inner_n = z.enum([("unit", []), ("tuple", [flat_vec(U16, "u8")])], sized=False, comment="inner unsized enum")
     z.struct([U32, inner_n], sized=False, comment="unsized enum nested as struct tail", msg=True)
+    # an unsized enum whose variant tail is itself an unsized enum with variants of different minimal sizes: the inner
+    # initialiser can refuse after the outer tag has been written (the other outer variants hold bytes that are no inner tag)
+    inner_m = z.enum([("unit", []), ("tuple", [U32, flat_vec(U8, "u8")]), ("tuple", [array(U8, 7)]), ("tuple", [U64, U64])], sized=False,
+                     comment="inner unsized enum, variant minimal sizes 0/5/7/16")
+    z.enum([("unit", []), ("tuple", [array(U8, 12)]), ("tuple", [U8, inner_m]), ("named", [inner_m])], sized=False,
+           comment="unsized enum nested as an enum variant tail", msg=True)
+    z.enum([("tuple", [U64]), ("tuple", [inner_n]), ("unit", [])], sized=False, default=2, comment="unsized enum nested as enum tail (2)")
+    mid_s = z.struct([U16, inner_m], sized=False, comment="struct ending in the inner enum")
+    z.enum([("unit", []), ("tuple", [array(U16, 6)]), ("tuple", [mid_s])], sized=False, comment="enum > struct > enum tail chain")
+    z.struct([U8, z.enum([("unit", []), ("tuple", [array(U8, 9)]), ("tuple", [inner_m])], sized=False, comment="middle enum of a struct > enum > enum chain")],
+             sized=False, comment="struct > enum > enum tail chain")
     z.register(flex_vec(inner_n, "u16"))
     z.register(flex_vec(unsized_enum, "u8"))
     z.register(flex_vec(unsized_struct, "u16"))
